@@ -127,13 +127,24 @@ Theorem C01_spec_bin_reading : forall o a b t,
 Proof. exact spec_bin_reading. Qed.
 Print Assumptions C01_spec_bin_reading.
 
-(* += and -= (g and h may be the same graph) *)
+(* += and -= (g and h may be the same graph).
+   SCOPE: [g_iadd]/[g_isub] (and [g_bin]) are DEFINED in Model.v over the list
+   [g_triples w h all_pat] computed up front; in Python `for t in other` runs the live
+   generator of the store interleaved with the adds/removals of the loop body (this
+   interleaving is where finding F10b lived).  For a graph of the Memory store that the
+   interleaved loop sees exactly that list is proved below (C01_memory_iteration_is_snapshot,
+   on the generator model of Store/Iter.v).  For a graph of a SimpleMemory store (key lists
+   snapshotted per loop level since 239260dc) and for Memory.remove's own walk over
+   partially bound patterns it is a modelling assumption (MA2/MA4), tied by the histories
+   suite only (aliased and same-store `+=`/`-=` cases, the F10b corpus witness, the
+   seeded change C01-r3-3). *)
 Theorem C01_iadd : forall c w S g h,
   Rel c w S -> Rel c (g_iadd w g h) (sp_add_all (scid c g) (sp_content S (scid c h)) S).
 Proof. exact Rel_iadd. Qed.
 Print Assumptions C01_iadd.
 
-(* full strength, including `g -= g` and two graphs of one SimpleMemory store *)
+(* every aliasing case included (`g -= g`, two graphs of one SimpleMemory store) - about
+   the up-front-list model, see SCOPE above *)
 Theorem C01_isub : forall c w S g h,
   Rel c w S -> Rel c (g_isub w g h) (sp_remove_all (scid c g) (sp_content S (scid c h)) S).
 Proof. exact Rel_isub. Qed.
@@ -185,6 +196,9 @@ Proof. vm_compute. auto. Qed.
 
 (* ------------------------------------------------------------------ *)
 (* Open iterators on the default store                                 *)
+(* SCOPE: the schedules model covers the generator Memory.triples(pattern, context=graph)
+   as reached through Graph.triples / Graph.__iter__ (all 8 shapes).  Iterators with
+   context=None (ConjunctiveGraph) and SimpleMemory iterators under mutation are not in it. *)
 
 (* SOUNDNESS, for every schedule of opens, steps and mutations: take any iterator
    (opened by [SOpen c p] after the prefix [pre]; it is iterator number
@@ -213,6 +227,22 @@ Theorem C01_iter_step_sound : forall m S it c p W,
        matches p t = true /\ In t W /\ (is_wild p = false -> mem_holds m c t = true).
 Proof. exact next_sound. Qed.
 Print Assumptions C01_iter_step_sound.
+
+(* `for t in other` over a graph of the Memory store, with arbitrary store states between
+   the steps (whatever the loop body did): the loop variable takes exactly the values of
+   the list computed up front in the state of the first next() *)
+Theorem C01_memory_iteration_is_snapshot : forall m0 c ms,
+  length (m0 :: ms) = length (mem_triples m0 c all_pat) ->
+  drive (m0 :: ms) (it_open c all_pat) = mem_triples m0 c all_pat.
+Proof. exact memory_iteration_is_snapshot. Qed.
+Print Assumptions C01_memory_iteration_is_snapshot.
+
+(* list(it) is defined by structural recursion over the snapshots (no fuel): it ends with
+   StopIteration (status 1), never raises; there is no third outcome *)
+Theorem C01_iter_list_exhausts : forall m S it c p W,
+  MemInv m -> HoldsRel m S -> ItRel it (c, p, W) -> WOK S (c, p, W) -> snd (fst (it_drain m it)) = 1%N.
+Proof. exact drain_exhausts. Qed.
+Print Assumptions C01_iter_list_exhausts.
 
 (* THE TIE for the iterator suite: the checker that judges the implementation
    accepts the model on every schedule *)
